@@ -256,6 +256,11 @@ impl PartSpec {
 	}
 }
 
+/// the Python interpreter used by the oracle scripts (`VERIF_PYTHON` is exported by ./check)
+pub fn python() -> String {
+	std::env::var("VERIF_PYTHON").unwrap_or_else(|_| "python3".to_owned())
+}
+
 pub fn scratch_dir() -> PathBuf {
 	let p = PathBuf::from(format!("{}/target/scratch/{}", verif_root(), std::process::id()));
 	fs::create_dir_all(&p).expect("scratch");
